@@ -127,7 +127,7 @@ CHECKS = {
         technique="initial-state grid + fault injection on real code over fakes; TLC validation of end states and safety logs"),
     "C11": dict(
         category="model_checking",
-        text="Switchover.tla (SetRecovery: list shrink first, then mark; C11_MarkedNotListed) is model-checked; the real "
+        text="Recovery.tla transcribes the case analysis of checkRecovery; TLC checks the C11 clauses on the complete product of observations (108 cells) and the REAL checkRecovery is run on every cell and compared with the model (Conf_Decision). Switchover.tla (SetRecovery: list shrink first, then mark; C11_MarkedNotListed) is model-checked; the real "
              "checkRecovery of a marked ex-master and the real manager run interleaved on the fakes over GTID relation x "
              "replication state x read-only x stuck commits x resetup file x interleaving order (incl. a further "
              "switchover); every mark removal is recorded with ground truth at that instant, every list write / promotion "
